@@ -291,7 +291,8 @@ reg("C15", harness="c15_reentrant", level="model_checking", deadline=(480, 2400)
     level_text="(b) For each of the 26 public dispatched entry points, 2 and 3 threads make their first call concurrently and ALL interleavings of "
                "their accesses to library-owned writable memory are executed on the real code (1680 schedules for 3 threads) under real CPUID and "
                "simulated CPU levels; codec/EC calls that resolve several slots are explored with preemption bound 2 (3); every thread must return "
-               "the serial value, the final slots must equal the serial selection, nothing but dispatch slots may be written. (a) after warm-up the "
+               "the serial value, the final slots must equal the serial selection, nothing but dispatch slots may be written. (a) right after implementation "
+               "selection - before the first data-plane call of the process, so lazily built state is caught too - the "
                "library's writable segment is made read-only and the whole battery + extra workload runs at 7 CPU levels. (c) contexts, level "
                "buffers, outputs and decoder states pre-filled with 5 patterns give identical results. (d) every operation history of depth <= 2 "
                "(3) over 21 operations followed by reset or init behaves like a fresh context.",
